@@ -1,10 +1,133 @@
 import MazeVerif.DriverOps.Util
+import MazeVerif.Model.Cache
 namespace MZ.Drv.C11
-open Lean MZ.Drv
+open Lean MZ.Drv MZ.Cache
 
-/-- driver ops of property C11 (`"op": "C11.<name>"`) -/
-def handle (op : String) (_j : Json) : R Json := do
+/-! driver ops of property C11. Datasets are `DS Nat` (the payload is an id the harness assigns to a list of mazes);
+    filters in the driver world are the faithful wrapper (append the record, payload id + 1) unless listed in
+    `filter_raises`. -/
+
+def asPair (j : Json) : R (String × String) := do
+  match (← j.getArr?).toList with
+  | [k, v] => pure ((← k.getStr?), (← v.getStr?))
+  | _ => throw "pair: expected [k,v]"
+
+def asFilter (j : Json) : R FilterRec := do
+  match (← j.getArr?).toList with
+  | [n, a, k] => pure ⟨← n.getStr?, ← (← a.getArr?).toList.mapM (·.getStr?), ← (← k.getArr?).toList.mapM asPair⟩
+  | _ => throw "filter: expected [name,args,kwargs]"
+
+def asCfg (j : Json) : R Cfg := do
+  pure ⟨← (← getArr j "fields").mapM asPair, ← (← getArr j "filters").mapM asFilter⟩
+
+def jPair (p : String × String) : Json := Json.arr #[Json.str p.1, Json.str p.2]
+def jFilter (f : FilterRec) : Json := Json.arr #[Json.str f.name, jStrs f.args, jList jPair f.kwargs]
+def jCfg (c : Cfg) : Json := obj [("fields", jList jPair c.fields), ("filters", jList jFilter c.filters)]
+
+def asFlags (j : Json) : R Flags := do
+  pure ⟨← getBool j "do_generate", ← getBool j "load_local", ← getBool j "save_local", ← getBool j "do_download",
+        ← getBool j "except_on_config_mismatch", ← getBool j "allow_generation_metadata_filter_mismatch"⟩
+
+def asRead (j : Json) : R (ReadOutcome Nat) := do
+  match ← getStr j "kind" with
+  | "absent" => pure .absent
+  | "raises" => pure .raises
+  | "other" => pure .okOther
+  | "ok" => pure (.okDs ⟨← asCfg (← fld j "cfg"), ← getNat j "id"⟩)
+  | k => throw s!"read kind {k}"
+
+def jRead : ReadOutcome Nat → Json
+  | .absent => obj [("kind", "absent")]
+  | .raises => obj [("kind", "raises")]
+  | .okOther => obj [("kind", "other")]
+  | .okDs d => obj [("kind", "ok"), ("cfg", jCfg d.cfg), ("id", jNat d.mazes)]
+
+def errName : Err → String
+  | .noWayToLoad => "noWayToLoad"
+  | .downloadRaised => "downloadRaised"
+  | .generateRaised => "generateRaised"
+  | .unknownFilter _ => "unknownFilter"
+  | .filterRaised _ => "filterRaised"
+  | .filterInfoMismatch => "filterInfoMismatch"
+  | .failedToLoad => "failedToLoad"
+  | .notADataset => "notADataset"
+  | .configMismatch _ => "configMismatch"
+  | .saveInterrupted => "saveInterrupted"
+
+def jOutcome (o : Outcome Nat) : Json :=
+  match o.res with
+  | .ok r => obj [("res", "ok"), ("out_cfg", jCfg r.out.cfg), ("out_id", jNat r.out.mazes), ("did_load_local", r.didLoadLocal),
+                  ("generated", r.generated), ("warned", r.warned), ("saved", r.saved), ("file_after", jRead o.fileAfter)]
+  | .error e =>
+    let extra := match e with
+      | .configMismatch fs => [("fields", jStrs fs)]
+      | .unknownFilter n => [("filter", Json.str n)]
+      | .filterRaised n => [("filter", Json.str n)]
+      | _ => []
+    obj ([("res", Json.str (errName e)), ("file_after", jRead o.fileAfter)] ++ extra)
+
+def asWorld (j : Json) : R (World Nat) := do
+  let read ← asRead (← fld j "read")
+  let dl ← getStr j "download"
+  let download : DownloadOutcome Nat ← match dl with
+    | "notImplemented" => pure .notImplemented
+    | "raises" => pure .raises
+    | k => throw s!"download kind {k}"
+  let g ← fld j "gen"
+  let gk ← getStr g "kind"
+  let gid ← getNat g "id"
+  let known ← (← getArr j "known").mapM (·.getStr?)
+  let raises ← (← getArr j "filter_raises").mapM (·.getStr?)
+  let n ← getNat j "len"
+  let cut : Option (ReadOutcome Nat) ← match optFld j "save_cut" with
+    | none => pure none
+    | some c => do pure (some (← asRead c))
+  pure { read := read, download := download,
+         gen := fun c => if gk = "ok" then some ⟨c, gid⟩ else none,
+         known := fun nm => known.contains nm,
+         applyFilter := fun fi d => if raises.contains fi.name then none
+                                    else some ⟨⟨d.cfg.fields, d.cfg.filters ++ [fi]⟩, d.mazes + 1⟩,
+         len := fun _ => n,
+         collected := fun d => d.cfg.filters.any (fun f => f.name = cgmRec.name),
+         strip := id, saveCut := cut }
+
+def asStep (j : Json) : R (Step Nat) := do
+  match ← getStr j "step" with
+  | "fault" => pure (.fault (← asRead (← fld j "file")))
+  | "call" => match optFld j "cut" with
+    | none => pure (.call none)
+    | some c => do pure (.call (some (← asRead c)))
+  | k => throw s!"step kind {k}"
+
+/-- ops:
+    `C11.from_config` {flags, cfg, read, download, gen, known, filter_raises, len, save_cut} → outcome of the model;
+    `C11.diff` {a, b} → {diff:[field…], meta_allowed};
+    `C11.steps` {flags, cfg, world…, file, steps:[…]} → {outcomes:[…], file}. -/
+def handle (op : String) (j : Json) : R Json := do
   match op with
+  | "C11.from_config" =>
+    let fl ← asFlags (← fld j "flags")
+    let cfg ← asCfg (← fld j "cfg")
+    let w ← asWorld j
+    pure (jOutcome (fromConfig fl w cfg))
+  | "C11.diff" =>
+    let a ← asCfg (← fld j "a")
+    let b ← asCfg (← fld j "b")
+    pure <| obj [("diff", jStrs (diff a b)), ("meta_allowed", metaAllowed a b)]
+  | "C11.steps" =>
+    let fl ← asFlags (← fld j "flags")
+    let cfg ← asCfg (← fld j "cfg")
+    let w ← asWorld j
+    let steps ← (← getArr j "steps").mapM asStep
+    let r := runSteps fl w cfg steps w.read
+    pure <| obj [("outcomes", jList jOutcome r.1), ("file", jRead r.2)]
+  | "C11.defaults" =>
+    match defaultFlags? with
+    | none => throw "from_config defaults not found"
+    | some f => pure <| obj [("do_generate", f.doGenerate), ("load_local", f.loadLocal), ("save_local", f.saveLocal),
+        ("do_download", f.doDownload), ("except_on_config_mismatch", f.exceptOnMismatch),
+        ("allow_generation_metadata_filter_mismatch", f.allowMetaMismatch),
+        ("compared", jStrs comparedFields), ("fields", jStrs allFields)]
   | _ => throw s!"unknown op {op}"
 
 end MZ.Drv.C11
